@@ -14,7 +14,7 @@ import numpy as np
 from common import f2b, b2f
 
 LEVEL = 'proof'
-MODULES = ['C13', 'C13b']
+MODULES = ['C13', 'C13b', 'C13c']
 
 
 def vecs(ans):
@@ -496,7 +496,7 @@ def run(ck):
                       'classes as listed in the case keys')
     ck.assumptions += ['numpy 3x3 matmul and norm are compared at rtol 1e-12 (summation order may differ)',
                        "Python's float % is modelled as a - b*floor(a/b) for b > 0",
-                       'taper positivity / ratio / min / max clauses are theorems for the one-sided taper only (C13b); they are evaluated on every generated taper of both kinds (implementation side)']
+                       'taper positivity / ratio are theorems for both kinds (C13b, C13c), min / max for the one-sided taper (C13_taper1_bounds); all four are evaluated on every generated taper of both kinds (implementation side)']
     seen = set()
     for v in viol:
         key = v['observed'][:40] if v.get('kind') != 'pipeline' else 'pipeline'
